@@ -32,7 +32,11 @@ ends in exactly one row of the decision table `Spec`:
 * `escaped` — only if a plugin hook lets a non-`HttpProtocolException` escape (excluded by `NoCrash`).
 
 The rows' conditions (parse result, completeness, protocol, plugin discovery, plugin result)
-are mutually exclusive and exhaustive, so the outcome is unique. -/
+are mutually exclusive and exhaustive, so the outcome is unique.  `reqParse` is `request.parse`
+for both values of `--enable-proxy-protocol` (`cfg.proxyProtocol`): with the flag on the first
+CRLF-terminated line goes to `ProxyProtocol.parse` (`Px.PP.parseLine`), and every way that can
+fail (AssertionError, IndexError, ValueError, NotImplementedError, HttpProtocolException) is a
+`reject (.parse e)` row: exactly one BAD_REQUEST packet, then teardown. -/
 theorem C06_total (cfg : Cfg) (st : St) (data : Bytes) (h : st.request.state ≠ .complete) :
     Spec cfg st data (handleData cfg st data) := by
   rw [handleData_first cfg st data h]; exact parseFirst_spec cfg st data
@@ -136,13 +140,29 @@ example : (handleData { plugins := [[3]] } {} (b "GET http://h/ HTTP/1.1\r\n\r\n
 example : (handleData { plugins := [[3]] } {} (b "GET / HTTP/1.1\r\n\r\n")).2.1 =
     .reject (.noPlugin .webServer) [Px.Gen.pkt_BAD_REQUEST_RESPONSE_PKT] := by decide +kernel
 example : (handleData { plugins := [[3]] } {} (b "GET ftp://h/ HTTP/1.1\r\n\r\n")).2.1 =
-    .reject (.parse .httpProtocol) [Px.Gen.pkt_BAD_REQUEST_RESPONSE_PKT] := by decide +kernel
+    .reject (.parse (.parser .httpProtocol)) [Px.Gen.pkt_BAD_REQUEST_RESPONSE_PKT] := by decide +kernel
 example : (handleData { plugins := [[3]] } {} (b "GET http://h/ HTTP/2.0\r\n\r\n")).2.1 =
     .reject .unknownProtocol [Px.Gen.pkt_BAD_REQUEST_RESPONSE_PKT] := by decide +kernel
 example : (handleData { plugins := [[3]], onComplete := fun _ _ => .raise [] (some Px.Gen.pkt_BAD_GATEWAY_RESPONSE_PKT) } {}
     (b "GET http://h/ HTTP/1.1\r\n\r\n")).2.1 = .reject (.pluginRaised 0) [Px.Gen.pkt_BAD_GATEWAY_RESPONSE_PKT] := by
   decide +kernel
 
+-- `--enable-proxy-protocol`: a PROXY line in front of the request; malformed ones get the one 400
+example : (handleData { plugins := [[3]], proxyProtocol := true } {}
+    (b "PROXY TCP4 10.0.0.1 10.0.0.2 1234 80\r\nGET http://h/ HTTP/1.1\r\n\r\n")).2.1 = .served 0 false := by
+  decide +kernel
+example : (handleData { plugins := [[3]], proxyProtocol := true } {}
+    (b "PROXY TCP4 10.0.0.1 10.0.0.2 1234 80\r\nGET http://h/ HTTP/1.1\r\n\r\n")).1.pp =
+    some { version := 1, family := some (b "TCP4"), source := some (b "10.0.0.1", 1234),
+           destination := some (b "10.0.0.2", 80) } := by decide +kernel
+example : (handleData { plugins := [[3]], proxyProtocol := true } {} (b "PROXY TCP5 a b 1 2\r\n")).2.1 =
+    .reject (.parse .assertion) [Px.Gen.pkt_BAD_REQUEST_RESPONSE_PKT] := by decide +kernel
+example : (handleData { plugins := [[3]], proxyProtocol := true } {} (b "PROXY\r\n")).2.1 =
+    .reject (.parse (.parser .indexError)) [Px.Gen.pkt_BAD_REQUEST_RESPONSE_PKT] := by decide +kernel
+example : (handleData { plugins := [[3]], proxyProtocol := true } {} (b "GET http://h/ HTTP/1.1\r\n")).2.1 =
+    .reject (.parse (.parser .httpProtocol)) [Px.Gen.pkt_BAD_REQUEST_RESPONSE_PKT] := by decide +kernel
+example : (handleData { plugins := [[3]], proxyProtocol := true } {} (b "PROXY TCP4 10.0.0.1 10.0.")).2.1 = .wait := by
+  decide +kernel
 -- the leftover of the segment reaches the plugin within the same call (84c574d)
 example : (handleData { plugins := [[3]], onClientData := fun _ _ d => .ret [d] false } {}
     (b "GET http://h/ HTTP/1.1\r\n\r\nNEXT")).1.buffer = [b "NEXT"] := by decide +kernel
